@@ -152,7 +152,7 @@ def build(cfg, float_mode=False):
         pc = ss.FMulti if float_mode else sp.MultiProb
         pp = {'A1': 0.5 * A, 'A2': 0.5 * A}
         key = {'Q1': cfg['qd'], 'Q2': cfg.get('qd2', cfg['qd'])}
-    sw = {'num_nodes': cfg['M'] if NL > 1 else cfg['M'][0], 'quad_type': cfg.get('quad_type', 'RADAU-RIGHT'), 'initial_guess': cfg.get('initial_guess', 'spread'), 'do_coll_update': cfg.get('cu', False), **key}
+    sw = {'num_nodes': cfg['M'] if NL > 1 else cfg['M'][0], 'quad_type': cfg.get('quad_type', 'RADAU-RIGHT'), **({'node_type': cfg['node_type']} if cfg.get('node_type') else {}), 'initial_guess': cfg.get('initial_guess', 'spread'), 'do_coll_update': cfg.get('cu', False), **key}
     d = dict(problem_class=pc, problem_params=pp, sweeper_class=c02.SWEEPERS[kind], sweeper_params=sw,
              level_params={'dt': cfg['dt'], 'restol': cfg['restol'], 'residual_type': cfg.get('residual_type', 'full_abs'),
                            'nsweeps': ([cfg.get('nsweeps', 1)] * (NL - 1) + [1]) if NL > 1 else cfg.get('nsweeps', 1)},
